@@ -81,7 +81,26 @@ fn check_int(text: &[usize]) -> Result<(), String> {
         Ok(())
     }).and_then(|r| r)
 }
+/// suffix_array() of a big text: a permutation whose adjacent suffixes ascend
+fn check_big(t: &[u8]) -> Result<(), String> {
+    let t = t.to_vec();
+    guarded(move || {
+        let sa = suffix_array(&t);
+        if sa.len() != t.len() { return Err(format!("suffix array has {} entries for {} symbols", sa.len(), t.len())); }
+        let mut seen = vec![false; t.len()];
+        for &p in sa.iter() { if p >= t.len() || seen[p] { return Err(format!("suffix array is not a permutation (entry {})", p)); } seen[p] = true; }
+        for w in sa.windows(2) { if t[w[0]..] >= t[w[1]..] { return Err(format!("suffixes {} and {} are out of order", w[0], w[1])); } }
+        Ok(())
+    }).and_then(|r| r)
+}
 pub fn run(input: &str) -> Result<(), String> {
+    if let Some(n) = field(input, "big") {
+        // re-create the text of the search (its own generator, seeded by seed ^ n)
+        let n: usize = n.parse().unwrap(); let syms = num(input, "syms") as u64;
+        let rng = Rng::new(num(input, "seed") as u64 ^ n as u64);
+        let mut t: Vec<u8> = (0..n).map(|_| 1 + rng.below(syms) as u8).collect(); t.push(0);
+        return check_big(&t);
+    }
     if let Some(t) = field(input, "int") { return check_int(&nums(t).into_iter().map(|x| x as usize).collect::<Vec<_>>()); }
     check_bytes(&unhex(field(input, "text").unwrap_or("")), num(input, "k") as u32, num(input, "s"))
 }
@@ -109,6 +128,14 @@ pub fn search(seed: u64, budget: &Budget, thorough: bool) -> (u64, Option<(Strin
             tried += 1;
             if let Err(e) = check_bytes(&t, 3, 4) { return (tried, Some((format!("k=3 s=4 text={}", hex(&t)), e))); }
         }
+    }
+    // large texts over a large alphabet: more than 65535 LMS substrings with more than 65536 distinct names switch the integer width inside
+    // SA-IS (the recursion text); verified by permutation + adjacent-suffix order (cheap: random texts have short common prefixes)
+    for &(n, syms) in &[(300_000usize, 250u64), (150_000, 8)] {
+        let r2 = Rng::new(seed ^ n as u64);
+        let mut t: Vec<u8> = (0..n).map(|_| 1 + r2.below(syms) as u8).collect(); t.push(0);
+        tried += 1;
+        if let Err(e) = check_big(&t) { return (tried, Some((format!("big={} syms={} seed={}", n, syms, seed), e))); }
     }
     let rounds = if thorough { 100000 } else { 1500 };
     for _ in 0..rounds {
